@@ -36,7 +36,9 @@ def floors(m, tier):
             "children non-empty": (c.get("children_nonempty", 0), u * 2),
             "siblings evaluations": (c.get("siblings", 0), u * 5),
             "creates": (c.get("creates", 0), u * 2),
-            "parent-exists evaluations": (c.get("parent_exists", 0), u * 5)}
+            "parent-exists evaluations": (c.get("parent_exists", 0), u * 5),
+            "self-in-siblings evaluations": (c.get("self_in_siblings", 0), u * 3),
+            "finds whose first result is untyped": (c.get("first_result_untyped", 0), 20)}
 
 
 def run(snap, tier, seed, t0, replay):
@@ -59,6 +61,8 @@ def finder_clauses(rec, lab, name, f, s, case):
         rec.violation("finder_raised", c, repr(e))
         return
     rec.count("finder_calls")
+    if lst and not lst[0]:
+        rec.count("first_result_untyped")
     if lst:
         rec.count("nonempty")
         rec.nt("%s|%s|%s|%s" % (case["uid"], case.get("step"), name, s))
@@ -67,7 +71,7 @@ def finder_clauses(rec, lab, name, f, s, case):
     if bool(ex) != bool(lst) or not isinstance(ex, bool):
         rec.violation("exists_vs_find", c, "exists=%r find=%r" % (ex, strs[:3]))
     if lst:
-        if not (one == lst[0] and str(one) == str(lst[0])):
+        if not (str(one) == str(lst[0]) and (one == lst[0] or not lst[0])):
             rec.violation("find_one_vs_first", c, "find_one=%r first=%r" % (one, lst[0]))
         if one_s != strs[0]:
             rec.violation("find_one_str_vs_first", c, "find_one=%r first=%r" % (one_s, strs[0]))
@@ -117,6 +121,12 @@ def sid_clauses(rec, lab, e, case):
                     if k.parent != x:
                         rec.violation("child_parent_is_not_sid", c, "%r parent %r" % (k, k.parent))
                         break
+        # an existing Sid shares its parent with itself: it is one of its own siblings (also for a root Sid)
+        if exp:
+            own = x.siblings()
+            rec.count("self_in_siblings")
+            if e not in {str(k) for k in own}:
+                rec.violation("existing_sid_not_among_its_siblings", c, repr([str(k) for k in own][:6]))
         # siblings
         if len(x) > 1:
             sibs = x.siblings()
@@ -161,9 +171,20 @@ def parent_clause(rec, lab, case):
             rec.violation("sid_call_raised", c, repr(ex_))
 
 
+def legacy_finder(lab):
+    """FindInList over the existing entities PLUS legacy strings that valid searches match textually but that cannot be typed."""
+    from spil import FindInList
+    from lib import universe
+    import random
+    L = list(lab.list) + universe.near_misses(random.Random(len(lab.list)), lab.list, max(4, len(lab.list) // 3))
+    L = [e for e in L if e and "?" not in e]      # (an empty string is no entry)
+    return FindInList(sorted(L))     # untyped near-misses sort among the valid entries and can come first
+
+
 def one_step(rec, lab, ncalls, case):
     from lib.findlab import filter_is_unspecified, last_index
     rng = lab.rng
+    lab.finders["list_legacy"] = legacy_finder(lab)
     for k in range(ncalls):
         s, info = lab.search(allow_last=(rng.random() < 0.15))
         if filter_is_unspecified(s):
